@@ -110,3 +110,37 @@ func VH_C11_batch() {
 		vCover("continue")
 	}
 }
+
+// cancellation BEFORE the run, with every kind of context (the harness's own, context.WithCancel,
+// context.WithCancelCause with a custom cause): no item starts, and either the error matches the
+// context's error (ctx.Err(), whatever the cause) or post is called once with an error in every slot
+func VH_C11_preCancelled() {
+	vUnwind(12)
+	ctx := vNewRunCtx("run")
+	ctx.cancel(vNondet[bool]("deadlineKind"))
+	n := vChoice("n", 3)
+	starts, posts := 0, 0
+	var res []Result
+	b := NewBatchNode().WithBatchConcurrency(vChoice("concurrency", 2)).WithBatchErrorHandling(vNondet[bool]("continue")).
+		WithPrepFunc(func(ctx context.Context, s *SharedStore) ([]Result, error) { return bItems(n), nil }).
+		WithExecFunc(func(ctx context.Context, it Result) (Result, error) {
+			vMon(func() { starts++ })
+			return it, nil
+		}).
+		WithPostFunc(func(ctx context.Context, s *SharedStore, items, results []Result) (Action, error) {
+			vMon(func() { posts++; res = results })
+			return "done", nil
+		})
+	_, err := Run(ctx, b, NewSharedStore())
+	vAssert(starts == 0, "pre-cancelled-batch-starts-no-item")
+	if err != nil {
+		vCover("run-returns-error")
+		vAssert(errors.Is(err, ctx.Err()), "error-matches-the-contexts-error")
+		return
+	}
+	vCover("post-called")
+	vAssert(posts == 1 && len(res) == n, "otherwise-post-is-called-exactly-once")
+	for i := 0; i < len(res); i++ {
+		vAssert(res[i].IsError(), "unexecuted-item-carries-an-error")
+	}
+}
